@@ -332,7 +332,7 @@ func (x *wireExec) exchange(cs *Case, wit interface{}) {
 	// write in chunks; a write fails as soon as the node closed its end
 	a := startAlloc() // from here on the harness allocates nothing of size
 	sent := int64(0)
-	ci := 0
+	ci, nw := 0, 0
 	for off := 0; off < len(stream); {
 		n := len(stream) - off
 		if len(script.Chunks) > 0 {
@@ -345,7 +345,10 @@ func (x *wireExec) exchange(cs *Case, wit interface{}) {
 				n = c
 			}
 		}
-		_ = cconn.SetWriteDeadline(time.Now().Add(wireWatchdog))
+		if nw%512 == 0 { // arming the deadline allocates a timer: not for every two-byte write
+			_ = cconn.SetWriteDeadline(time.Now().Add(wireWatchdog))
+		}
+		nw++
 		m, err := cconn.Write(stream[off : off+n])
 		sent += int64(m)
 		off += m
